@@ -39,17 +39,33 @@ def variational_generous(run, rng, quick):
         mps = Mps.random(model, n // 2, 6, percent=1.0).canonicalise().canonicalise()
         ref = mpo.todense() @ lc.dense_state(mps).ravel()
         M = 4 * 2 ** (n // 2)
-        for name, kw in (("plain-25-sweeps:guess(1,1)", dict(vprocedure=[[M, 0]] * 25, vguess_m=(1, 1))),
-                         ("default-procedure:guess(2,2)", dict(vguess_m=(2, 2)))):
-            work = mps.copy()
-            work.compress_config = CompressConfig(CompressCriteria.fixed, max_bonddim=M, vmethod="2site", **kw)
+        # one-site sweeps can only grow a bond inside symmetry blocks that are already populated (recorded finding
+        # `variational:sector-starved:stalled`): the one-site configuration is run on a model WITHOUT symmetry labels, where the
+        # zero-singular-value vectors of the full SVD let every bond grow
+        from renormalizer.model.basis import BasisHalfSpin
+        sbasis = [BasisHalfSpin(i) for i in range(n)]
+        sterms = [Op("sigma_x sigma_x", [i, j], float(rng.uniform(-0.5, 0.5))) for i in range(n) for j in range(i + 1, n)] + \
+                 [Op("sigma_z", i, float(rng.uniform(-0.5, 0.5))) for i in range(n)] + [Op("sigma_x", i, float(rng.uniform(-0.5, 0.5))) for i in range(n)]
+        smodel = Model(sbasis, sterms)
+        smpo = Mpo(smodel)
+        smps = Mps.random(smodel, 0, 6, percent=1.0).canonicalise().canonicalise()
+        sref = smpo.todense() @ lc.dense_state(smps).ravel()
+        for name, kw in (("plain-25-sweeps:guess(1,1)", dict(vmethod="2site", vprocedure=[[M, 0]] * 25, vguess_m=(1, 1))),
+                         ("default-procedure:guess(2,2)", dict(vmethod="2site", vguess_m=(2, 2))),
+                         ("1site:no-symmetry:plain-60-sweeps:guess(1,1)", dict(vmethod="1site", vprocedure=[[M, 0]] * 60, vguess_m=(1, 1)))):
+            if name.startswith("1site"):
+                case_mps, case_mpo, case_ref = smps, smpo, sref
+            else:
+                case_mps, case_mpo, case_ref = mps, mpo, ref
+            work = case_mps.copy()
+            work.compress_config = CompressConfig(CompressCriteria.fixed, max_bonddim=M, **kw)
             try:
-                out = work.variational_compress(mpo)
+                out = work.variational_compress(case_mpo)
             except Exception as e:  # noqa
                 run.count("variational-generous-raised:" + type(e).__name__)
                 continue
             done += 1
-            err = float(np.linalg.norm(lc.dense_state(out).ravel() - ref) / np.linalg.norm(ref))
+            err = float(np.linalg.norm(lc.dense_state(out).ravel() - case_ref) / np.linalg.norm(case_ref))
             run.count("variational-generous:" + name)
             if err > 1e-6:
                 run.violation("variational:generous-limit:poor-guess:not-converged",
